@@ -6,8 +6,8 @@ from props.common import enc_str, Reader
 
 ID = 'C01p'
 PROPERTY = 'C01'
-COQ_MODEL = 'model.RuleParser'
-COQ_CORR = 'corr_C01p'
+COQ_MODEL = 'model.RuleParser model.ParseRule'
+COQ_CORR = 'corr_C01p_all'
 N_QUICK = 3000
 N_THOROUGH = 30000
 RULE = ('rule texts: (i) printed from abstract segment lists in every syntax flavour (:name, <name>, {name}, '
@@ -129,13 +129,80 @@ def corpus():
              '<p.path()>end', '<p:path><x>', '<p:path>', '{p.path()}a:b', '<a.re(\\))>', '<a.re(a(b)c)>z', '<a.re(x)[]]>',
              '<a.re(x)[\n]>', '<a.re(x)[>', '<1a>', '<a b>', '<:>', '<:int.x>', '<a.int:5>', 'x{a}y<b>z:c', '<a>>', '<a}',
              '<é>', '<aé>']
-    return [dict(kind='raw', text=t) for t in texts]
+    rules = [('/u/<id:int>/{n}', '/u/{id.int}/:n'), ('/p/<x:path>end', '/p/{x.path()}end'),
+             ('/<:re:[a-z]+>/x', '/{re([a-z]+)}/x'), ('/a/:b', '/a/<b>'), ('/<a><b:int>', '/{a}{b.int}'),
+             ('nolead', 'nolead'), ('/<x:nosuchfilter>', '/<x:nosuchfilter>'), ('/<x:re:(>', '/<x:re:(>')]
+    return [dict(kind='raw', text=t) for t in texts] + [dict(kind='rule', text=a, alt=b) for a, b in rules]
+
+
+def gen_abs_rule(rng):
+    """an abstract rule: literals and wildcards (name?, filter?, args?, sel?)"""
+    out = []
+    n = rng.randrange(1, 5)
+    for i in range(n):
+        if rng.random() < 0.45 and not (out and out[-1][0] == 'lit'):
+            out.append(('lit', rng.choice(['/', 'foo', '/foo/', '/x.y/', 'end', '-'])))
+            continue
+        name = rng.choice(NAMES[:5]) if rng.random() < 0.75 else None
+        flt = rng.choice(['int', 'float', 're', 'path']) if rng.random() < 0.6 else None
+        args = None
+        if flt == 're':
+            args = rng.choice(['[a-z]+', 'x', 'a b', '\\d+'])
+        elif flt and rng.random() < 0.3:
+            args = rng.choice(['x', 'ab'])
+        if name is None and flt is None:
+            name = 'n%d' % i
+        out.append(('w', name, flt, args))
+    # a path filter takes the following literal text as its arguments; followed directly by another wildcard it
+    # takes the REST OF THE RULE TEXT, syntax included (parser.py: token_pos = len(tail)), which makes such a rule
+    # spelling-dependent by construction.  The flavour-independence theorem excludes that shape (segs_ok), and so
+    # does the oracle: insert a literal.
+    fixed = []
+    for i, a in enumerate(out):
+        fixed.append(a)
+        if a[0] == 'w' and a[2] == 'path' and i + 1 < len(out) and out[i + 1][0] == 'w':
+            fixed.append(('lit', '/'))
+    return fixed
+
+
+def print_abs(rng, arule):
+    """print an abstract rule choosing, per wildcard, a random flavour able to express it"""
+    segs = []
+    for i, a in enumerate(arule):
+        if a[0] == 'lit':
+            lit = a[1]
+            if segs and segs[-1][0] == 'par' and segs[-1][1] == 'colon' and not lit.startswith('/'):
+                return None
+            segs.append(('lit', lit))
+            continue
+        _, name, flt, args = a
+        d = rng.choice('<{')
+        last = i == len(arule) - 1
+        nxt_slash = (not last) and arule[i + 1][0] == 'lit' and arule[i + 1][1].startswith('/')
+        if flt is None:
+            fls = ['plain'] + (['colon'] if (last or nxt_slash) else [])
+        elif name is not None and args is None:
+            fls = ['name:flt', 'name.flt']
+        elif name is not None:
+            fls = ['name.flt()'] + (['name:flt:args'] if ('>' not in args and '}' not in args) else [])
+        elif args is None:
+            fls = [':flt']
+        else:
+            fls = [':flt()', 'flt()'] + ([':flt:args'] if ('>' not in args and '}' not in args) else [])
+        segs.append(('par', rng.choice(fls), d, name or '', flt or '', args or '', None))
+    return '/' + ''.join(print_seg(s, None) for s in segs)
 
 
 def gen(rng, n):
     for i in range(n):
         r = rng.random()
-        if r < 0.5:
+        if r < 0.15:
+            ar = gen_abs_rule(rng)
+            t1, t2 = print_abs(rng, ar), print_abs(rng, ar)
+            if t1 is None or t2 is None:
+                t1 = t2 = '/' + ''.join(rng.choice(ALPHA) for _ in range(rng.randrange(0, 10)))
+            yield dict(kind='rule', text=t1, alt=t2)
+        elif r < 0.5:
             segs = gen_abstract(rng)
             text, exp = render(segs)
             yield dict(kind='abstract', text=text, expected=exp)
@@ -156,9 +223,36 @@ def gen(rng, n):
             yield dict(kind='raw', text=''.join(rng.choice(ALPHA) for _ in range(rng.randrange(0, 14))))
 
 
+def _filter_key(route_cls, handler):
+    # the key FilterFactory cached this handler under: identity of the filter
+    from ombott.router.filter_factory import FilterFactory
+    if handler is None:
+        return None
+    for k, v in FilterFactory._filter_cache.items():
+        if v[0] is handler:
+            return k
+    return '?'
+
+
 def run_impl(case):
     from ombott.router.parser import Parser
     from ombott.router.errors import RouteSyntaxError
+    if case['kind'] == 'rule':
+        from ombott.router.radirouter import Route
+        import re as _re
+        try:
+            pattern, params, filters, pattern_out, _fo = Route.parse_rule(case['text'])
+        except RouteSyntaxError:
+            return dict(error='syntax')
+        except TypeError:
+            return dict(error='type')
+        except (AssertionError, IndexError):
+            return dict(error='assert')
+        except (_re.error, KeyError) as e:
+            # unknown filter name / regex that does not compile: make_filter is outside this model
+            return dict(error='make_filter', cls=type(e).__name__)
+        return dict(pattern=pattern, params=params, filters=[_filter_key(Route, f) for f in filters],
+                    pattern_out=pattern_out)
     try:
         items = [list(t) for t in Parser().iter_parse(case['text'])]
     except RouteSyntaxError:
@@ -170,12 +264,24 @@ def run_impl(case):
 
 def encode(case):
     t = case['text']
-    return enc_str(wordc_table(t)) + enc_str([ord(c) for c in t])
+    mode = 1 if case['kind'] == 'rule' else 0
+    return [mode] + enc_str(wordc_table(t)) + enc_str([ord(c) for c in t])
+
+
+def _s(q):
+    return ''.join(chr(c) for c in q.str())
 
 
 def decode(out, case):
     r = Reader(out)
     tag = r.int()
+    if case['kind'] == 'rule':
+        if tag == 0:
+            pattern = _s(r)
+            params = r.list(_s)
+            filters = r.list(lambda q: None if q.int() == 0 else _s(q))
+            return dict(pattern=pattern, params=params, filters=filters, pattern_out=_s(r))
+        return dict(error={1: 'syntax', 2: 'type', 3: 'assert'}.get(tag, 'model_tag_%d' % tag))
     if tag == 1:
         return dict(error='syntax')
     if tag == 2:
@@ -190,9 +296,22 @@ def decode(out, case):
     return dict(items=r.list(lambda q: [opt(q) for _ in range(5)]))
 
 
+def same(impl, model, case):
+    # FilterFactory.make_filter (unknown filter name -> KeyError, mask that does not compile -> re.error) is
+    # outside this model: such cases are compared up to the point where the parser has done its work
+    if impl.get('error') == 'make_filter':
+        return 'pattern' in model
+    return impl == model
+
+
 def oracle(case, obs):
     if 'escaped' in obs or 'hang' in obs:
         return 'parser raised an unexpected exception: %s' % obs
+    if case['kind'] == 'rule' and case.get('alt') and case['alt'] != case['text']:
+        other = run_impl(dict(kind='rule', text=case['alt']))
+        if other != obs:
+            return ('two spellings of one abstract rule parse differently: %r -> %s but %r -> %s'
+                    % (case['text'], obs, case['alt'], other))
     if case['kind'] == 'abstract':
         if obs.get('items') != case['expected']:
             return 'rule %r (printed from an abstract rule) does not parse back to its segments: %s' % (case['text'], obs)
@@ -200,6 +319,8 @@ def oracle(case, obs):
 
 
 def nontrivial(case, obs):
+    if case['kind'] == 'rule':
+        return bool(obs.get('filters')) or case.get('alt') != case['text']
     if 'items' in obs:
         return any(it[2] for it in obs['items'])
     return any(c in case['text'] for c in '<{')
@@ -215,6 +336,10 @@ def classify(case, obs):
 
 def shrink(case):
     t = case['text']
+    if case['kind'] == 'rule' and case.get('alt') == t:
+        for i in range(1, len(t)):
+            yield dict(kind='rule', text=t[:i] + t[i + 1:], alt=t[:i] + t[i + 1:])
+        return
     if case['kind'] != 'raw':
         return
     for i in range(len(t)):
